@@ -10,3 +10,4 @@ Theorem C09_single_operand_py_refuted :
   exists m p, In (m, p) py_single_operand_pre /\
               match pre_lookup py_pre_table p with Some (x, _) => imode_eqb m x = false | None => True end.
 Proof. exists IM_PY_N, 51. split; [vm_compute; tauto | vm_compute; reflexivity]. Qed.
+Print Assumptions C09_single_operand_py_refuted.
